@@ -15,7 +15,7 @@ open Spec (A AMod)
 
 theorem evt_upd (s : State) (u : Nat) (f : Module → Module) (hu : ∀ x, (f x).uid = x.uid) (hc : ∀ x, (f x).closed = x.closed) :
     Evt s (s.upd u f) := by
-  refine evt_same rfl (fun v ⟨m, hm, hcl⟩ => ?_)
+  refine evt_same rfl (fun v ⟨m, hm, hcl⟩ => ?_) (uids_upd s u f hu)
   refine ⟨if m.uid == u then f m else m, by rw [find_upd s u v f hu, hm]; rfl, ?_⟩
   split
   · rw [hc]; exact hcl
@@ -125,8 +125,36 @@ theorem readOne_evt (cfg : Cfg) (s : State) (rd : Read) (hc : s.crashed = none) 
       rw [hro]; exact (removeTop_nest cfg _ rd.uid).evt.trans (logTop_nest cfg lvl _).evt
     · rw [readOne_whole cfg s rd hc m hm (by simpa using hb)]
       exact process_evt cfg _ rd.uid rd.h
-  obtain ⟨E, hE, hno, _⟩ := key
+  obtain ⟨⟨E, hE, hno, _⟩, _⟩ := key
   exact ⟨E, by rw [hE, rdState_out]; simp, hno⟩
+
+/-- reading frames never adds a table entry -/
+theorem readOne_usub (cfg : Cfg) (s : State) (rd : Read) :
+    ((readOne cfg s rd).mods.map (·.uid)).Sublist (s.mods.map (·.uid)) := by
+  by_cases hc : s.crashed = none
+  · cases hm : s.find rd.uid with
+    | none =>
+      have : readOne cfg s rd = s := by unfold readOne; simp [hc, hm]
+      rw [this]; exact List.Sublist.refl _
+    | some m =>
+      have key : Evt (rdState cfg s rd) (readOne cfg s rd) := by
+        by_cases hb : Spec.brokenRd cfg rd = true
+        · obtain ⟨lvl, hro⟩ := readOne_broken cfg s rd hc m hm hb
+          rw [hro]; exact (removeTop_nest cfg _ rd.uid).evt.trans (logTop_nest cfg lvl _).evt
+        · rw [readOne_whole cfg s rd hc m hm (by simpa using hb)]
+          exact process_evt cfg _ rd.uid rd.h
+      exact key.2
+  · have : readOne cfg s rd = s := by
+      unfold readOne
+      cases hcr : s.crashed with
+      | none => exact absurd hcr hc
+      | some w => simp
+    rw [this]; exact List.Sublist.refl _
+
+theorem readAll_usub (cfg : Cfg) : ∀ (reads : List Read) (s : State),
+    ((readAll cfg reads s).mods.map (·.uid)).Sublist (s.mods.map (·.uid))
+  | [], s => List.Sublist.refl _
+  | rd :: rest, s => (readAll_usub cfg rest (readOne cfg s rd)).trans (readOne_usub cfg s rd)
 
 theorem readOne_skip (cfg : Cfg) (s : State) (rd : Read) (hm : s.find rd.uid = none) : readOne cfg s rd = s := by
   unfold readOne; split
@@ -210,7 +238,7 @@ theorem readAll_cons (cfg : Cfg) (rd : Read) (rest : List Read) (s : State) :
     readAll cfg (rd :: rest) s = readAll cfg rest (readOne cfg s rd) := rfl
 
 theorem quietTo_refl {cfg : Cfg} {s : State} (t : Top cfg s) (j : J s) : QuietTo cfg s s :=
-  ⟨Nest.refl s, t, j, Quiet.refl _ s, fun _ => Quiet.refl _ s⟩
+  ⟨Nest.refl s, t, j, Quiet.refl _ s, fun _ => Quiet.refl _ s, infoTo_refl _ _ s⟩
 
 section loop
 variable {cfg : Cfg} (ok : CfgOK cfg) (hfuel : cfg.fuel = 0) (hperm : OrdPerm cfg)
@@ -333,7 +361,7 @@ def envA (a : A) (r : Round) : A :=
 theorem sim_env {cfg : Cfg} {a : A} {s : State} (hs : Sim cfg a s) (r : Round) : Sim cfg (envA a r) (envStep s r) := by
   unfold envStep envA
   exact ⟨hs.uids, hs.nacc, by show _ = _; rw [hs.nacc, hs.fail], hs.buf, hs.live, hs.mods, hs.w, hs.logIn, hs.logOut,
-    hs.logConn, hs.logNodup, hs.logBound, hs.idxIn, hs.idxPos⟩
+    hs.logConn, hs.logNodup, hs.logBound, hs.idxIn, hs.idxPos, minv_same hs.minv rfl rfl⟩
 
 /-- the connections the Spec considers alive are the table entries -/
 theorem liveList_contains {cfg : Cfg} {a : A} {s : State} (hs : Sim cfg a s) (u : Nat) (hu : u ≠ 0) :
@@ -416,12 +444,38 @@ theorem sim_accept {cfg : Cfg} {a : A} {s : State} (hs : Sim cfg a s) (wA wM : L
     · simp only [hv, if_false]
   refine ⟨?_, by show a.nAccepted + 1 = s.nextUid + 1; rw [hn], hs.fail, hs.buf, fun v hv => ?_, fun v am m h1 h2 => ?_,
     fun v hl => ?_, fun v m h1 h2 => ?_, fun v m h1 h2 => ?_, fun v m h1 h2 => ?_, hs.logNodup,
-    fun u hu => Nat.le_succ_of_le (hs.logBound u hu), fun v m t h1 h2 => ?_, hs.idxPos⟩
-  rotate_right
-  · rw [hfindS] at h1
+    fun u hu => Nat.le_succ_of_le (hs.logBound u hu), fun v m t h1 h2 => ?hidx, hs.idxPos, ?hminv⟩
+  case hidx =>
+    rw [hfindS] at h1
     split at h1
     · cases h1; cases h2
     · exact hs.idxIn v m t h1 h2
+  case hminv =>
+    have hbound : ∀ x ∈ s.mods, x.uid ≤ s.nextUid := by
+      intro x hx
+      cases Nat.lt_or_ge s.nextUid x.uid with
+      | inl hlt =>
+        have h1 := sim_fresh hs x.uid hlt
+        have h2 := find_of_mem (s := s) hs.minv.distinct hx
+        rw [h1] at h2; cases h2
+      | inr hge => exact hge
+    refine ⟨?_, fun m0 hm0 => ?_, fun v m _ hm hc => ?_, hs.minv.ndyn⟩
+    · show ((s.mods ++ [({ uid := s.nextUid + 1 } : Module)]).map (·.uid)).Nodup
+      rw [List.map_append]
+      refine List.nodup_append.mpr ⟨hs.minv.distinct, by simp, ?_⟩
+      intro a ha b hb
+      simp only [List.map_cons, List.map_nil, List.mem_singleton] at hb
+      obtain ⟨x, hx, rfl⟩ := List.mem_map.mp ha
+      have := hbound x hx
+      omega
+    · rw [hfindS] at hm0
+      split at hm0
+      · rename_i h0; omega
+      · exact hs.minv.mgr m0 hm0
+    · rw [hfindS] at hm
+      split at hm
+      · cases hm; rfl
+      · exact hs.minv.unconn v m trivial hm hc
   · show (a.mods ++ [({ uid := a.nAccepted + 1 } : AMod)]).map (·.uid) = (List.range (a.nAccepted + 1)).map (· + 1)
     rw [List.map_append, hs.uids, List.range_succ, List.map_append]; rfl
   · rw [hliveA, hfindS, hn]; split
@@ -458,7 +512,7 @@ theorem sim_accept {cfg : Cfg} {a : A} {s : State} (hs : Sim cfg a s) (wA wM : L
 theorem sim_setW {cfg : Cfg} {a : A} {s : State} (hs : Sim cfg a s) (wA wM : List Nat)
     (hw : ∀ v, (a.live v).isSome → (v ∈ wA ↔ v ∈ wM)) : Sim cfg { a with w := wA } { s with wlist := wM } :=
   ⟨hs.uids, hs.nacc, hs.fail, hs.buf, hs.live, hs.mods, hw, hs.logIn, hs.logOut, hs.logConn, hs.logNodup, hs.logBound,
-   hs.idxIn, hs.idxPos⟩
+   hs.idxIn, hs.idxPos, minv_same hs.minv rfl rfl⟩
 
 /-! ## one round, both sides in the same shape -/
 
@@ -703,11 +757,13 @@ theorem round_ok {a : A} {s : State} (inv : Inv cfg a s) (r : Round) (hwf : Roun
   generalize readsS s r = reads at *
   generalize preS cfg s r = sP at *
   generalize preA a r = a3 at *
+  have hdP : (sP.mods.map (·.uid)).Nodup := hsP.minv.distinct
   have tR := top_readAll ok hfuel reads tP
   have jR : J (readAll cfg reads sP) := readAll_J cfg reads jP
   have q : QuietTo cfg (readAll cfg reads sP) (ticks cfg (readAll cfg reads sP)) :=
     ⟨ticks_nest cfg _, top_ticks ok hfuel tR, ticks_J cfg jR, qa_ticks cfg _,
-      fun k => quiet_of_QE (ticks_QE cfg (tag_cp cfg k) (ctl_cp k) _)⟩
+      fun k => quiet_of_QE (ticks_QE cfg (tag_cp cfg k) (ctl_cp k) _),
+      ticks_info cfg _ ((readAll_usub cfg reads sP).nodup hdP)⟩
   obtain ⟨E1, hE1⟩ := readAll_out ok hfuel reads sP tP
   obtain ⟨E2, hE2, _, _⟩ := q.nest.ext
   have hE : (ticks cfg (readAll cfg reads sP)).out = sP.out ++ (E1 ++ E2) := by rw [hE2, hE1, List.append_assoc]
@@ -806,7 +862,7 @@ theorem init_sim : Inv cfg ({} : A) (init cfg) := by
   have nolog : (init cfg).loggers = [] := List.sublist_nil.mp n.logSub
   refine ⟨rfl, n.nuid.symm, n.fail.symm, n.buf.symm, fun u hu => ?_, fun u am m h1 _ => ?_, fun u hl => ?_, fun u m h1 h2 => ?_,
     fun u m h1 _ => ?_, fun u m h1 h2 => ?_, by rw [nolog]; exact List.nodup_nil, fun u hu => ?_,
-    fun u m t h1 h2 => ?_, fun t u hu => ?_⟩
+    fun u m t h1 h2 => ?_, fun t u hu => ?_, ?_⟩
   · constructor
     · intro h; cases h
     · intro h
@@ -821,6 +877,23 @@ theorem init_sim : Inv cfg ({} : A) (init cfg) := by
   · rw [(only0 u m h1).2.2] at h2; cases h2
   · have := n.idxSub t u hu
     simp [idxGet] at this
+  · refine ⟨?_, fun m0 hm0 => ?_, fun u m _ hm hc => ?_, ?_⟩
+    · exact n.uids.nodup (by simp)
+    · obtain ⟨m1, hm1, hcore⟩ := n.surv 0 m0 hm0 (t.aopen 0 m0 hm0)
+      simp only [State.find, List.find?_cons, List.find?_nil] at hm1
+      split at hm1
+      · cases hm1
+        obtain ⟨e1, e2, _⟩ := core_more hcore
+        exact ⟨e1, e2⟩
+      · cases hm1
+    · obtain ⟨m1, hm1, hcore⟩ := n.surv u m hm (t.aopen u m hm)
+      simp only [State.find, List.find?_cons, List.find?_nil] at hm1
+      split at hm1
+      · cases hm1
+        rw [(core_more hcore).2.2] at hc; cases hc
+      · cases hm1
+    · rw [n.ndyn]
+      exact (Nat.eq_zero_or_pos (maxDyn cfg)).imp id id
 
 include hperm
 
